@@ -104,13 +104,14 @@ def sub (F : FloatOps R) (a b : Value R) : Res (Value R) :=
   | .arr x, .arr y => .ok (.arr (x.filter (fun e => !(y.any (fun z => sameVal F e z)))))
   | _, _ => .err
 
-/-- F_MULTIPLY (mapping composition is outside the covered core) -/
+/-- F_MULTIPLY -/
 def mul (F : FloatOps R) (a b : Value R) : Res (Value R) :=
   match a, b with
   | .int x, .int y => .ok (.int (wrap (x * y)))
   | .real x, .real y => .ok (.real (F.mul x y))
   | .int x, .real y => .ok (.real (F.mul (F.ofInt x) y))
   | .real x, .int y => .ok (.real (F.mul x (F.ofInt y)))
+  | .map x, .map y => .ok (.map (mapCompose (keyEq F) x y))       -- compose_mapping
   | _, _ => .err
 
 /-- 64-bit signed division as repaired: divisor -1 gives the wrapped negation (idiv would trap) -/
